@@ -130,4 +130,13 @@ theorem hex_children_volume (a0 a1 a2 b0 b1 b2 c0 c1 c2 d0 d1 d2 e0 e1 e2 f0 f1 
     List.range'_succ, List.range_succ]
   ring
 
+set_option maxHeartbeats 4000000 in
+/-- Grandy's closed form equals twelve times the tensor Simpson rule of the Jacobian determinant, for every mesh and
+    every vertex tuple (identity in the 24 coordinates).  The Simpson rule is exact for `det J` because the Jacobian
+    determinant of a trilinear map has degree at most 2 in each reference coordinate (not proved here). -/
+theorem hexVol12_eq_simpson (M : Mesh) (t : List Nat) : hexVol12 M t = hexVolSimpson12 M t := by
+  unfold hexVol12 hexVolSimpson12 hexJacAt
+  simp [List.range_succ, bitOf]
+  ring
+
 end FeatModel.Refine
